@@ -21,6 +21,7 @@ import (
 	"testing"
 	"time"
 
+	"github.com/WICG/webpackage/go/internal/cbor"
 	"github.com/WICG/webpackage/go/signedexchange/certurl"
 	"github.com/WICG/webpackage/go/verifh/gen"
 	"github.com/WICG/webpackage/go/verifh/ref/refcbor"
@@ -272,6 +273,41 @@ var chainProp = vh.Define("C17", "chain-roundtrip", func(c ChainCase, r *vh.R) {
 		r.NT()
 	}
 	bad := presence(c.Elems)
+
+	// -- the other doors. Validate is the exported statement of which chains can be written
+	// (first element with an OCSP response, later ones without); it must agree with the pattern.
+	if verr := chain.Validate(); (verr == nil) != (len(bad) == 0) {
+		r.Failf("validate-disagrees", "CertChain.Validate returned %v for presence pattern %v (elems %+v)", verr, bad, c.Elems)
+		return
+	}
+	// EncodeTo / DecodeAugmentedCertificateFrom handle ONE element, whatever its place in a chain:
+	// the bytes are the element's canonical map, and decoding them (with more data behind) gives
+	// the element back and stops exactly at its end.
+	for i, m := range ms {
+		var eb bytes.Buffer
+		if err := chain[i].EncodeTo(cbor.NewEncoder(&eb)); err != nil {
+			r.Failf("element-door", "AugmentedCertificate.EncodeTo refuses element %d (%+v): %v", i, c.Elems[i], err)
+			return
+		}
+		want := refEncode([]mat{m})[len(refcbor.Arr(refcbor.Tstr(magic))):]
+		if !bytes.Equal(eb.Bytes(), want) {
+			r.Failf("element-door", "AugmentedCertificate.EncodeTo of element %d gives %d octets (%x...), the canonical map has %d (%x...)", i, eb.Len(), trunc(eb.Bytes()), len(want), trunc(want))
+			return
+		}
+		tail := []byte{0xa1, 0x64, 'c', 'e', 'r', 't', 0x40}
+		rd := bytes.NewReader(append(append([]byte{}, want...), tail...))
+		ac, derr := certurl.DecodeAugmentedCertificateFrom(cbor.NewDecoder(rd))
+		if derr != nil || ac == nil || ac.Cert == nil {
+			r.Failf("element-door", "DecodeAugmentedCertificateFrom refuses the canonical map of element %d: %v", i, derr)
+			return
+		}
+		if !bytes.Equal(ac.Cert.Raw, m.der) || !bytes.Equal(ac.OCSPResponse, m.ocsp) || !bytes.Equal(ac.SCTList, m.sct) || rd.Len() != len(tail) {
+			r.Failf("element-door", "DecodeAugmentedCertificateFrom on element %d: der equal %v, ocsp %d/%d octets, sct %d/%d octets, %d octets left unread (want %d)", i,
+				bytes.Equal(ac.Cert.Raw, m.der), len(ac.OCSPResponse), len(m.ocsp), len(ac.SCTList), len(m.sct), rd.Len(), len(tail))
+			return
+		}
+	}
+	r.Class("doors:validate+element")
 
 	if c.FailFirst > 0 {
 		chain.Write(&failingWriter{k: c.FailFirst - 1})
